@@ -64,6 +64,41 @@ func genC18Query(g kit.G, c *kit.Corpus) kit.QSpec {
 		}
 		return kit.QSpec{Op: "and", Kids: []kit.QSpec{br, text()}}
 	}
+	if g.Bool(10, "covering-lists") {
+		// a branch / repository list with several entries that together name
+		// every repository, padded with ids of repositories that are not
+		// loaded, so that each entry is as long as the set of repositories
+		all := map[string]bool{}
+		for i := range c.Repos {
+			for _, b := range c.Repos[i].Branches {
+				all[b.Name] = true
+			}
+		}
+		var names []string
+		for b := range all {
+			names = append(names, b)
+		}
+		sort.Strings(names)
+		br := kit.QSpec{Op: "branchesrepos"}
+		covered := map[uint32]bool{}
+		ne := 2 + g.U(2, "clentries")
+		for e := 0; e < ne; e++ {
+			spec := kit.BRSpec{Branch: kit.Pick(g, names, "clbranch")}
+			for i := range c.Repos {
+				if g.Bool(55, "clin") || (e == ne-1 && !covered[c.Repos[i].ID]) {
+					spec.IDs = append(spec.IDs, c.Repos[i].ID)
+					covered[c.Repos[i].ID] = true
+				}
+			}
+			if g.Bool(70, "clpad") {
+				for pad := uint32(900); len(spec.IDs) < len(c.Repos)+g.U(2, "clextra"); pad++ {
+					spec.IDs = append(spec.IDs, pad)
+				}
+			}
+			br.BR = append(br.BR, spec)
+		}
+		return kit.QSpec{Op: "and", Kids: []kit.QSpec{br, text()}}
+	}
 	switch g.Int(0, 9, "shape") {
 	case 0, 1, 2, 3:
 		// (and repoatom+ text)
@@ -458,6 +493,11 @@ func TestVerif_C18(t *testing.T) {
 					}
 				}
 			}
+		}
+		if g.Bool(15, "noid") {
+			// a repository indexed without an id (older indexes): listings
+			// report it in Repos instead of ReposMap
+			c.Corpus.Repos[g.U(len(c.Corpus.Repos), "noidrepo")].ID = 0
 		}
 		ncomp := 0
 		for range c.Corpus.Repos {
